@@ -259,6 +259,9 @@ class ApiClient(object):
                 sim.current_node = prev
         else:
             def go_sync():
+                if node.dead or node.app is None:   # the process died before the request reached it
+                    finish(-1, "")
+                    return
                 try:
                     client = node.app.test_client()
                     resp = client.post("/", data=body, headers=hdrs)
